@@ -46,6 +46,8 @@ r("C03", "helper frees an input value", M, "	  free((*fe)[merge_length].value);"
 r("C03", "capacity from one input", L, "malloc((etc_file->length + usr_file->length) * sizeof(struct file_entry))", "malloc((usr_file->length + 1) * sizeof(struct file_entry))")
 r("C03", "duplicate key inserted", M, "	    new_key = false;\n	    break;", "	    new_key = true;\n	    break;")
 r("C03", "block move one too many", M, "(added_keys - pos) * sizeof(struct file_entry));", "(added_keys - pos + 1) * sizeof(struct file_entry));")
+r("C03", "override-only key inserted in front of the section's last key", M, "	  pos = k + 1;", "	  pos = k;")
+r("C03", "new sections inserted at the old end", M, "? added_keys : 0;", "? merge_length : 0;")
 # ---- C04 ----------------------------------------------------------------------------------------------------------------
 r("C04", "float getter loses NULL test", K, "  if (key_file.file_entry[num].value == NULL)\n    return ECONF_KEY_HAS_NULL_VALUE;\n  errno = 0;\n  *result = strtof", "  errno = 0;\n  *result = strtof")
 r("C04", "value trim loses its bound", G, "      while (p > data && (isspace((unsigned)*p)))\n	p--;", "      while (isspace((unsigned)*p))\n	p--;")
@@ -71,6 +73,7 @@ r("C06", "callback result ignored", G, "  if (callback != NULL && !(*callback)(f
 r("C06", "rejection returns success", G, "    return ECONF_PARSING_CALLBACK_FAILED;", "    return ECONF_SUCCESS;")
 r("C06", "second reader", M, "        free(file_path);\n        if(!error && key_file) {", "        { FILE *probe = fopen(file_path, \"r\"); if (probe) fclose(probe); }\n        free(file_path);\n        if(!error && key_file) {")
 r("C06", "revert D16", M, "	  econf_free(key_file);\n	  for (int k = i; k < num_dirs; k++)", "	  for (int k = i; k < num_dirs; k++)")
+r("C06", "revert D33 (object handed back by a failed econf_readDirsWithCallback)", L, "			       callback, callback_data);\n  if (ret != ECONF_SUCCESS)\n    *result = econf_free(*result); /* nothing is handed back if reading fails */\n  return ret;", "			       callback, callback_data);\n  return ret;")
 # ---- C07 ----------------------------------------------------------------------------------------------------------------
 r("C07", "fixed delimiter", L, 'fprintf(kf, "%s%c", key_file->file_entry[i].key, key_file->delimiter);', 'fprintf(kf, "%s=", key_file->file_entry[i].key);')
 r("C07", "fixed comment prefix", L, '	fprintf(kf, "%c%s\\n",\n		key_file->comment,\n		line);', '	fprintf(kf, "#%s\\n",\n		line);')
